@@ -42,6 +42,10 @@ def setup(ctx):
     pass
 
 
+def rowset_in_file_order(rows, name):
+    return [r for r in rows if r[0] == name]
+
+
 def run_case(ctx, rng, index, casedir):
     sit = collections.Counter()
     viol = []
@@ -160,6 +164,12 @@ def run_case(ctx, rng, index, casedir):
                     allowed.add(("none", "none"))
                 else:
                     allowed.add((f"{r[3]}-{r[2]}", r[1]))
+            if len({(r[1], r[2], r[3]) for r in rowset}) > 1:
+                # conflicting duplicate rows: the statement does not say which one applies; which listing
+                # the tool used is recorded as an observation only
+                first = rowset_in_file_order(rows, nm)[0]
+                exp_first = ("none", "none") if first[1] == "none" else (f"{first[3]}-{first[2]}", first[1])
+                sit["conflicting_rows:first_listing_used" if (ps[0][5:], ht[0][5:]) == exp_first else "conflicting_rows:other_listing_used"] += 1
             if (ps[0][5:], ht[0][5:]) not in allowed:
                 viol.append({"kind": "ps_ht_value", "msg": f"record {nm}: {ps[0]} {ht[0]} but the TSV rows of the read allow {sorted(allowed)}", "witness": wit})
     return {"sigs": sigs, "evals": max(evals, 1), "situations": dict(sit), "violations": viol,
